@@ -18,6 +18,7 @@ from . import c05, c06, c07
 RULE = ('built-in models (Ising, XXZ spin-1/2 and spin-1, Bose-Hubbard d=1..4, Fermi-Hubbard, optimized spinless molecular L<=6, optimized spin molecular L<=4), '
         'L=1..6, generic and degenerate dyadic parameters; random chain lists (L<=5, <=9 chains, duplicates, cancelling pairs, charged / uncharged) and exhaustive '
         'small chain lists; random consistent layered graphs (parallel edges, twins, charges) before/after simplify. '
+        'Stream "schmidt-rank (numeric, property oracle)": not a model comparison -- bond dimension = numerical operator Schmidt rank evaluated always on small inputs of every built-in model. '
         'non-trivial = construction succeeds; distinct = distinct (stream, model / L, bond dimensions)')
 
 DENSE_LIMIT = 1100
@@ -79,6 +80,26 @@ def _corr_shard(name, shard, nshards, tier, seed):
     c = Corr(name)
     rng = np.random.default_rng([seed, shard, 20])
     thorough = tier == 'thorough'
+    if name.startswith('schmidt-rank'):
+        cases = []
+        for L in (2, 3, 4):
+            for model, d in (('ising', None), ('xxz', None), ('xxz1', None), ('fermi_hubbard', None), ('bose', 2), ('bose', 3)):
+                cs = {'clause': 'rank', 'model': model, 'L': L, 'params': [0.7, -1.3, 0.45]}
+                if d:
+                    cs['d'] = d
+                cases.append(cs)
+        cases = [cs for k, cs in enumerate(cases) if k % nshards == shard]
+        for _ in range(2 if not thorough else 20):
+            cases.append(gen_rank_case(rng))
+        for case in cases:
+            r = run_rank(case)
+            small = {k: v for k, v in case.items() if k not in ('tkin', 'vint')} if case['model'] not in ('mol', 'spinmol') or case['L'] > 2 else case
+            c.add(dict(case, op='oracle (numeric)') if case['model'] not in ('mol', 'spinmol') else dict(case, op='oracle (numeric)'),
+                  {'ok': True, 'oracle_ok': r is None, 'observed': r}, {'ok': True, 'oracle_ok': True, 'observed': None},
+                  cls=('rank', case['model'], case['L'], case.get('d')), branches=['rank:' + case['model']])
+        if len(c.samples) > 0:
+            c.samples = [{'op': {k: v for k, v in s_['op'].items() if k not in ('tkin', 'vint')}, 'reply': s_['reply']} for s_ in c.samples]
+        return c
     if name == 'builtin.bond_dims':
         ops = builtin_ops(rng, tier, shard, nshards)
         impls = [hamlib.impl_build(op) for op in ops]
@@ -129,7 +150,8 @@ def _corr_shard(name, shard, nshards, tier, seed):
 
 
 def correspondence(tier, seed):
-    return [common.parallel_shards(_corr_shard, name, tier, seed) for name in ('builtin.bond_dims', 'chains.bound', 'simplify.widths')]
+    return [common.parallel_shards(_corr_shard, name, tier, seed)
+            for name in ('builtin.bond_dims', 'chains.bound', 'simplify.widths', 'schmidt-rank (numeric, property oracle)')]
 
 
 # ----------------------------------------------------------------------------- oracle (property text; used only after a break)
@@ -271,6 +293,9 @@ def search(tier, seed, hints, budget_s):
     for h in hints:
         if h['kind'] == 'correspondence' and isinstance(h['detail'], dict):
             op = h['detail']['op']
+            if op.get('op') == 'oracle (numeric)':
+                cands.append({k: v for k, v in op.items() if k != 'op'})
+                continue
             if op.get('op') == 'ham.chain_widths' and c05.chains_valid(op['chains'], op['length']):
                 charged = any(any(x != 0 for x in ch[1]) for ch in op['chains'])
                 cands.append(dict(c05.case_of_chains(op['chains'], op['length'], op['oid_identity'], rng, charged), clause='chains'))
